@@ -200,25 +200,27 @@ func scDaoPools(tw *hx.TraceWriter, rep *hx.Report, seed int64) {
 }
 
 // (f) the fee multipliers are raised in the middle of a block; claim / proof multipliers change the
-// compensation the proof pays back to the operator
+// compensation the proof pays back to the OPERATOR (a9: output address a1, delegator a6 - so the
+// split between operator, output address and delegator depends on the multipliers in force)
 func scFeeMultiplier(tw *hx.TraceWriter, rep *hx.Report, seed int64) {
 	c := baseCfg(seed)
-	c.B = 2
+	c.B, c.NodeCount = 2, 3
 	w := startChain(tw, rep, c, "f-fee-multiplier-mid-block")
-	w.to(6)
+	w.block(blockOpts{}, w.nodeStakeTx("a9", "a1", 4000000, []string{"0001"}, urls[1], map[string]int64{"a6": 20}, "a9")) // 5
+	w.to(8) // session 7..8 (a1, a2, a9 serve 0001) has ended
 	send := func(fee int64) absTx { a := w.sendTx("a6", "a7", 100); a["fee"] = fee; return a }
-	r := w.block(blockOpts{}, // 7
+	withFee := func(a absTx, fee int64) absTx { a["fee"] = fee; return a }
+	r := w.block(blockOpts{}, // 9
 		send(10000), w.paramFeeMult(kOwner, map[string]int64{"send": 2, "claim": 2, "proof": 3}, 1),
 		send(10000), send(19999), send(20000),
-		w.claimTx(kN1, kA1, "0001", 5, 5, e5, kN1)) // declared fee 10000 < 2 * 10000
+		w.claimTx(kN4, kA1, "0001", 7, 5, e5, kN4)) // declared fee 10000 < 2 * 10000
 	w.note("f:send-old-fee-after-raise", r, 2)
-	cl := w.claimTx(kN1, kA1, "0001", 5, 5, e5, kN1)
-	cl["fee"] = int64(20000)
-	w.block(blockOpts{}, cl, w.paramFeeMult(kU1, map[string]int64{"send": 1}, 1))
-	pr := w.proofTx(kN1, kA1, "0001", 5, e5, req())
-	pr["fee"] = int64(30000)
-	w.block(blockOpts{}, pr, w.paramFeeMult(kOwner, map[string]int64{}, 3), send(20000), send(30000)) // 9: compensation = min(share, 20000 + 30000)
-	w.block(blockOpts{}, w.paramFeeMult(kOwner, map[string]int64{}, 1), send(10000))
+	w.block(blockOpts{}, withFee(w.claimTx(kN4, kA1, "0001", 7, 5, e5, kN4), 20000), withFee(w.claimTx(kN1, kA1, "0001", 7, 8, e8, kN1), 20000),
+		w.paramFeeMult(kU1, map[string]int64{"send": 1}, 1)) // 10
+	r = w.block(blockOpts{}, withFee(w.proofTx(kN4, kA1, "0001", 7, e5, req()), 30000), // 11: compensation = min(share, 20000 + 30000)
+		w.paramFeeMult(kOwner, map[string]int64{}, 3), withFee(w.proofTx(kN1, kA1, "0001", 7, e8, req()), 30000), send(20000), send(30000))
+	w.note("f:proof-under-raised-multipliers", r, 0)
+	w.block(blockOpts{}, withFee(w.paramFeeMult(kOwner, map[string]int64{}, 1), 30000), send(10000))
 	w.blocks(2)
 }
 
@@ -269,6 +271,35 @@ func scMatureAtBoundary(tw *hx.TraceWriter, rep *hx.Report, seed int64) {
 	w.blocks(3)
 }
 
+// (i) a replay attack detected by a proof burns the servicer's stake through the NODES keeper; the
+// stake falls below a minimum that governance raised in the meantime: the proof transaction
+// force-unstakes the node (jailed, waiting, released at the session end).  The claim is authored
+// at the last accepted height, when the selecting block exists, so that the driver can pick a
+// claimed total whose required leaf is an ORIGINAL of the duplicated relays.
+func scReplayBurnForceUnstake(tw *hx.TraceWriter, rep *hx.Report, seed int64) {
+	c := baseCfg(seed)
+	c.B = 2
+	w := startChain(tw, rep, c, "i-replay-burn-force-unstake")
+	w.block(blockOpts{}, w.paramInt(kOwner, "pos/StakeMinimum", 2900000), // a2 holds 3.0
+		w.nodeStakeTx("a9", "a1", 3000000, []string{"0002"}, urls[1], map[string]int64{"a6": 10}, "a9")) // 5: output = a validator
+	w.to(8)
+	total := int64(6)
+	hdr := w.header(kA1, "0001", 5)
+	for _, t := range []int64{6, 7, 8} {
+		if ix := indexFromHash(hashOfBlock(w.s, 8), hdr, t); ix%2 == 0 && ix < 6 {
+			total = t
+			break
+		}
+	}
+	r := w.block(blockOpts{}, w.claimTx(kN2, kA1, "0001", 5, total, e6dup, kN2), w.proofTx(kN2, kA1, "0001", 5, e6dup, req()), // 9
+		w.claimTx(kN4, kA2, "0002", 7, 5, e5, kN4), w.claimTx(kN3, kA2, "0002", 7, 5, e5, kN3))
+	w.note("i:replay-proof", r, 1)
+	w.block(blockOpts{}, w.nodeUnjailTx("a2", "a2", "a2")) // 10: too low to unjail; session end releases it
+	r = w.block(blockOpts{}, w.proofTx(kN4, kA2, "0002", 7, e5, req()), w.proofTx(kN3, kA2, "0002", 7, e5, req())) // 11: reward of a9 goes to its output a1 and delegator a6
+	w.note("i:proof-output-and-delegator", r, 0)
+	w.blocks(4)
+}
+
 type scenario struct {
 	name string
 	run  func(tw *hx.TraceWriter, rep *hx.Report, seed int64)
@@ -282,7 +313,7 @@ func scEmpty(tw *hx.TraceWriter, rep *hx.Report, seed int64) {
 
 var scenarios = []scenario{
 	{"a", scUnstakePendingClaim}, {"b", scAppTransferMidSession}, {"c", scMaxValidatorsJailed}, {"d", scStakeMinimumSlash},
-	{"e", scDaoPools}, {"f", scFeeMultiplier}, {"g", scFeatureUpgrade}, {"h", scMatureAtBoundary},
+	{"e", scDaoPools}, {"f", scFeeMultiplier}, {"g", scFeatureUpgrade}, {"h", scMatureAtBoundary}, {"i", scReplayBurnForceUnstake},
 	{"zempty", scEmpty},
 }
 
